@@ -8,7 +8,8 @@
 (*   live     well-formed (reference accepts, produces the intended bytes, both digests right)          *)
 (*              =>  res = ok /\ out = reference bytes                                                  *)
 (*   total    res is never panic / hang                                                                *)
-(* D: the reference rejects but the code accepts with the right digest (code more lenient): DRIFT.     *)
+(* D: the reference rejects but the code accepts with the right digest (code more lenient): DRIFT;     *)
+(*    the RLE stream of an unmutated BSD0 file is not the canonical encoding of Ptch!RleEncode: DRIFT. *)
 EXTENDS Ptch, Json, IOUtils, TLCExt
 
 Rec == ndJsonDeserialize(IOEnv.TRACE)
@@ -25,8 +26,17 @@ Tags(e) ==
           THEN <<"unverified">> ELSE <<>>)
       \o (IF wf /\ e.res = "err" THEN <<"wellformed_rejected" \o neg>> ELSE <<>>)
       \o (IF wf /\ e.res = "ok" /\ e.out # ref.out THEN <<"wrong_bytes">> ELSE <<>>)
+\* the driver's RLE encoder is the canonical one of Ptch.tla (so that Gen_Ptch!RunsCoverCtlSpace speaks about the
+\* very streams that are fed to the code): checked on the unmutated BSD0 files
+Canonical(e) ==
+  LET hdr == ParsePtch(e.file)
+  IN  (e.mut.k = "none" /\ hdr.ok /\ hdr.kind = "bsd0" /\ Len(hdr.payload) >= 4 /\ hdr.patchDataSize >= 0)
+        => LET src == SubSeq(hdr.payload, 5, Len(hdr.payload))
+               rle == RleDecode(src, hdr.patchDataSize)
+           IN  rle.ok => src = RleEncode(rle.out)
 Drift(e) == LET ref == RefApply(e.file, e.base)
-            IN  IF e.res = "ok" /\ ~ref.ok THEN <<"lenient:" \o ref.why>> ELSE <<>>
+            IN  (IF e.res = "ok" /\ ~ref.ok THEN <<"lenient:" \o ref.why>> ELSE <<>>)
+                \o (IF ~Canonical(e) THEN <<"encoder-not-canonical">> ELSE <<>>)
 
 Init == tl = 1 /\ pplan = <<>> /\ pphase = "" /\ pacc = <<>> /\ pci = 0
 Next == /\ tl <= Len(Rec) /\ tl' = tl + 1 /\ UNCHANGED ptvars
